@@ -103,10 +103,7 @@ def b_list(ex, st, node, args, kw):
 def set_of_seq(ex, st, seq: VSeq):
     if seq.elem is not S.Str:
         raise OutOfReach("set of non-string sequence")
-    c = z3.Const(S.fresh_name("c"), S.PyStr)
-    t = z3.Lambda([c], z3.Contains(seq.term, z3.Unit(c)))
-    r = z3.Const(S.fresh_name("setof"), S.CSetS)
-    st.facts.append(r == t)
+    r = S.lam(lambda c: z3.Contains(seq.term, z3.Unit(c)), seq.term)
     st.facts.append(z3.And(S.card(r) <= z3.Length(seq.term), S.card(r) >= 0, (S.card(r) == 0) == (z3.Length(seq.term) == 0)))
     return VSet(r)
 
@@ -277,7 +274,15 @@ def b_tb_value(ex, st, node, args, kw):
     return VSeq(tb.val, S.CSet)
 
 
+def b_the(ex, st, node, args, kw):
+    """contract language: the member of a one-element set"""
+    (x,) = args
+    seq, e = ex.enum_of(st, x.term)
+    return VStr(e[0])
+
+
 BUILTINS = {
+    "the": b_the,
     "bool": b_bool, "tb_value": b_tb_value,
     "Ballot": b_Ballot,
     "reversed_seq": b_reversed_seq,
